@@ -321,7 +321,7 @@ def shm_dir():
     return d
 
 
-def run_scenarios(harness, scen_file, pid, shards=None, log=False, env=None, max_crashes=80, extra_args=(), timeout=3000):
+def run_scenarios(harness, scen_file, pid, shards=None, log=False, env=None, max_crashes=80, extra_args=(), timeout=3000, trace=None):
     """Replay a scenario file with the interpreter, split round-robin into parallel shards.
     Returns dict(mismatches, scenarios, steps, crashes, log=<path or None>)."""
     from concurrent.futures import ThreadPoolExecutor
@@ -339,7 +339,10 @@ def run_scenarios(harness, scen_file, pid, shards=None, log=False, env=None, max
         cmd = [harness, "--scenarios", parts[k], "--workdir", os.path.join(work, f"w{k}"), "--prop", pid, "--seed", str(SEED)] + list(extra_args)
         if log:
             cmd += ["--log", parts[k] + ".log"]
-        return run_isolated(cmd, env=env, max_crashes=max_crashes, timeout=timeout)
+        e = env
+        if trace and k == 0:          # the first shard also records every stream operation the library performs internally (hooks, DESIGN 0.7)
+            e = dict(env or {}, OP2UTILITY_VERIF_TRACE=trace)
+        return run_isolated(cmd, env=e, max_crashes=max_crashes, timeout=timeout)
     with ThreadPoolExecutor(max_workers=n) as ex:
         res = list(ex.map(one, range(n)))
     out = dict(mismatches=[], scenarios=0, steps=0, crashes=0, log=None)
